@@ -18,10 +18,12 @@ pub struct Shared {
     /// backend-side message handlers still at work, per run
     pub active: Mutex<HashMap<u64, i64>>,
     pub backend_conns: AtomicU64,
+    /// HTTP/2 frames the harness peers put on the wire, per run (a legitimate iteration-budget kill needs thousands)
+    pub frames: Mutex<HashMap<u64, u64>>,
 }
 impl Shared {
     pub fn new(log: Arc<Log>, reg: Registry, mon: Arc<IdleMon>) -> Arc<Shared> {
-        Arc::new(Shared { log, reg, mon, inconclusive: Mutex::new(Vec::new()), active: Mutex::new(HashMap::new()), backend_conns: AtomicU64::new(0) })
+        Arc::new(Shared { log, reg, mon, inconclusive: Mutex::new(Vec::new()), active: Mutex::new(HashMap::new()), backend_conns: AtomicU64::new(0), frames: Mutex::new(HashMap::new()) })
     }
     pub fn plan(&self, run: u64) -> Option<Arc<RunPlan>> {
         self.reg.lock().unwrap().get(&run).cloned()
@@ -31,6 +33,12 @@ impl Shared {
     }
     pub fn active_of(&self, run: u64) -> i64 {
         *self.active.lock().unwrap().get(&run).unwrap_or(&0)
+    }
+    pub fn add_frames(&self, run: u64, n: u64) {
+        *self.frames.lock().unwrap().entry(run).or_insert(0) += n;
+    }
+    pub fn take_frames(&self, run: u64) -> u64 {
+        self.frames.lock().unwrap().remove(&run).unwrap_or(0)
     }
     pub fn mark_inconclusive(&self, run: u64) {
         self.inconclusive.lock().unwrap().push(run);
